@@ -440,11 +440,16 @@ impl Lane for C01 {
             let n = draw_giant_order(rng);
             let mut steps = Vec::new();
             let corner = |rng: &mut Rng| -> usize {
-                match rng.below(6) {
+                match rng.below(8) {
                     0 => 0,
                     1 => n - 1,
                     2 => n - 2,
                     3 => n / 2,
+                    4 | 5 => {
+                        // powers of two and their neighbours
+                        let k = rng.range(5, 11);
+                        ((1usize << k) + rng.below(3)).saturating_sub(1).min(n - 1)
+                    }
                     _ => rng.below(n),
                 }
             };
